@@ -91,7 +91,7 @@ EXTRA = {
  "C05": "Part-count dimension: structured locations of 6..14 (thorough 24) parts.",
  "C06": "Part-count dimension: structured locations of 6..16 (thorough 30) parts and values with coordinates of up to seven digits.",
  "C10": "Part-count dimension: structured locations of 6..10 (thorough 16) parts: insert;delete and embed;delete at every index, cut sets of 1..3 positions.",
- "C01": "Also: the operations undo-insert (delete exactly what an insertion put in) and gap deletion in the program alphabet, so that locations an edit leaves unreduced are written and read back.",
+ "C01": "Also: the operations undo-insert (delete exactly what an insertion put in) and gap deletion in the program alphabet, so that locations an edit leaves unreduced are written and read back; a seed record that has both a CONTIG line and an ORIGIN block (eight seeds).",
  "C03": "The judged slice is never the first slice of its parent: two earlier slices of the same GenBank record are taken first and must read the same afterwards, as must the parent. Reference sets none of which survives the window. Part-count dimension: structured locations of 6..10 (thorough 16) parts x every deletion of 1..3 residues and every window inside [0,L].",
  "C07": "A stream cut inside a record must be reported as an error (no clean end after k records). History independence of the seven string parsers: every token string up to length 4-5 evaluated in ascending and in descending order in two fresh processes must get the same answer, and every string of a curated set must get the same answer in a fresh process as after the whole set (the shortest offending pair is reported). The checker runs under a supervisor process: a runtime fatal error (out of memory, stack exhaustion) raised by the code under test is located with a serial journalled re-run, confirmed in a fresh process and reported as a VIOLATION.",
  "C08": "Size dimension: structured regions of up to 12 (quick) / 20 (thorough) segments x three length patterns x four orientation patterns, listed and complemented, x all modifiers; regions with zero-length (between-site) segments at their ends, on one strand, x all modifiers (known finding KF-zero-length-end-segment). Locator tables include features that agree in 5' end, 3' end and spliced length but differ inside.",
